@@ -11,6 +11,7 @@ import (
 	"fmt"
 	"os"
 	"runtime"
+	"runtime/pprof"
 	"strings"
 	"syscall"
 
@@ -97,6 +98,11 @@ func runOne(r req, capture *os.File, savedOut int) (out resp) {
 }
 
 func main() {
+	if pf := os.Getenv("VRUN_CPUPROFILE"); pf != "" {
+		f, _ := os.Create(pf)
+		pprof.StartCPUProfile(f)
+		defer pprof.StopCPUProfile()
+	}
 	respFile := os.NewFile(3, "resp")
 	w := bufio.NewWriter(respFile)
 	capture, err := os.CreateTemp("", "vrun-out")
